@@ -474,6 +474,18 @@ def _render(pool, op):
     return _wrap(pool, lambda: plaintext.basic_render(uu, rfunc=_render_idx))
 
 
+def _other(pool, op):
+    # ["other", edge, vertex-or-None]: a call with a return value and no effect
+    _, e, v = op
+    if not pool.has(e) or (v is not None and not pool.has(v)):
+        return SKIP
+    eo = pool.get(e)
+    if not isinstance(eo, zoo.TwoEndedLink):
+        return SKIP
+    vo = None if v is None else pool.get(v)
+    return _wrap(pool, lambda: eo.other(vo))
+
+
 def _cache(pool, op):
     Vertex.NEIGHBOR_CACHING = bool(op[1])
     return ("ok", None)
@@ -507,10 +519,11 @@ _OPS = {
     "trav": _trav,
     "search": _search,
     "render": _render,
+    "other": _other,
     "cache": _cache,
 }
 
 MUTATORS = {"mkv", "mku", "mke", "mkl", "mkw", "setv1", "setv2", "v_add_link", "v_rm_link", "l_add_vertex",
             "l_unlink_from", "link", "unlink", "u_add", "u_rm", "v_add_uni", "v_rm_uni", "set_laws", "set_applies",
             "w_file", "adjdict", "adjmatrix"}
-QUERIES = {"nb", "fl", "trav", "search", "render"}
+QUERIES = {"nb", "fl", "trav", "search", "render", "other"}
